@@ -5,7 +5,7 @@ import numpy as np
 def run(req):
     fn = req["fn"]
     a = req.get("args", {})
-    if fn.startswith("mri.") or fn in ("wavelet.check", "fourier.nufft"):
+    if fn.startswith("mri.") or fn in ("wavelet.check", "fourier.nufft", "scipy.contract"):
         import replay_mri
         return replay_mri.run(req)
     if fn in ("trajgrad.trap_grad", "trajgrad.min_trap_grad"):
